@@ -34,11 +34,15 @@ RULE = ('cases = (a) chi² vector over {1, 2, 3.5, +inf, NaN} of length 0..5 (or
         'with / without model_fluxes; (b) distance-independent package (some models duplicated), extinction law, '
         'A_V range, sources (some with confidence-1 limits).  Non-trivial: at least 2 models.  Distinct = distinct '
         'canonical hash of the generated inputs')
-REQUIRED_BRANCHES = ['direct', 'tie', 'inf', 'nan', 'already_ranked', 'reordered', 'no_fluxes', 'with_fluxes',
+REQUIRED_BRANCHES = ['direct', 'near_tie', 'near_tie_ulp', 'e2e_near_tie', 'tie', 'inf', 'nan', 'already_ranked', 'reordered', 'no_fluxes', 'with_fluxes',
                      'e2e', 'e2e_tie', 'e2e_1e30', 'e2e_clamped', 'e2e_reordered',
                      'e2e3d', 'e2e3d_tie', 'e2e3d_mask_changed_best', 'e2e3d_reordered', 'e2e3d_predicted_independent',
                      'e2e_cube', 'e2e_cube_long_names', 'e2e_cube_shared_prefix', 'e2e_cube_reordered']
-ASSUMPTIONS = ['order inside a group of equal chi² is not compared (numpy.argsort default kind is not stable)',
+ASSUMPTIONS = ['"non-decreasing chi²" is checked EXACTLY on the own float64 numbers of the implementation, its chi² column (NaN last), with no '
+               'tolerance and no margin relaxation, also for chi² values that differ by 1 ulp .. 1e-8 relative (near-ties, built '
+               'directly and produced by the fitter from near-duplicate models); only the comparison of the row ORDER with the '
+               'model is relaxed inside near-tie groups',
+               'order inside a group of equal chi² is not compared (numpy.argsort default kind is not stable)',
                'end-to-end: chi² values closer than 1e-9 (relative) are treated as one tie group; IEEE rounding is not '
                'modelled (tolerance 1e-9 x condition number); rows whose clamp/limit decision margin is below 1e-7 are skipped',
                'distance-dependent mode: rows are compared (a) with the real fitter run on one-model packages (a row must not '
@@ -107,6 +111,15 @@ def gen_cases(seed, tier):
     yield direct_case([], True)
     yield direct_case([Nn], False)
     yield direct_case([I, I, 1, 1, Nn, 1], True)
+    # near-ties: relative gaps far below single precision, larger value first
+    yield direct_case([5., 3. * (1 + 1e-8), 3., 1., 7. * (1 + 1e-10), 7., 7. * (1 + 1e-13), 2.], True)
+    yield direct_case([float(np.nextafter(40., np.inf)), 40., float(np.nextafter(np.nextafter(40., np.inf), np.inf)), 1e3, Nn, 0.5], False)
+    yield direct_case([1e30 * (1 + 1e-10), 1e30, 12.5 * (1 + 1e-8), 12.5, I], True)
+    for i in range(4):
+        yield near_tie_direct(case_rng(seed, PID, 'directed-near-%d' % i))
+    for i in range(4):
+        yield add_near_duplicates(case_rng(seed, PID, 'directed-neardup-%d' % i),
+                                  gen_e2e(case_rng(seed, PID, 'directed-neardup-case-%d' % i), 'interior'))
     for i, d in enumerate(['dup', 'big', 'clamp_low', 'clamp_high']):
         yield gen_e2e(case_rng(seed, PID, 'directed-%d' % i), d)
     yield gen_cube(case_rng(seed, PID, 'directed-cube-0'), directed=True)
@@ -120,16 +133,24 @@ def gen_cases(seed, tier):
             yield direct_case(v, len(v) % 2 == 0)
         for k in range(1500):
             yield long_direct(case_rng(seed, PID, 'long-%d' % k))
+        for k in range(1500):
+            yield near_tie_direct(case_rng(seed, PID, 'near-%d' % k))
     else:
         vecs = list(all_vectors())
         for k in range(N_DIRECT_QUICK):
             rng = case_rng(seed, PID, 'd%d' % k)
             if rng.random() < 0.15:
                 yield long_direct(rng)
+            elif rng.random() < 0.15:
+                yield near_tie_direct(rng)
             else:
                 yield direct_case(rng.choice(vecs), rng.random() < 0.6)
     for k in range(N_E2E[tier]):
-        yield gen_e2e(case_rng(seed, PID, 'e%d' % k))
+        rng = case_rng(seed, PID, 'e%d' % k)
+        c = gen_e2e(rng)
+        if rng.random() < 0.35:
+            add_near_duplicates(rng, c)
+        yield c
     for k in range(N_E2E3D[tier]):
         yield gen_e2e3d(case_rng(seed, PID, 'f%d' % k))
     for k in range(N_CUBE[tier]):
@@ -268,6 +289,44 @@ def gen_e2e3d_masked(rng):
                 logd_step=0.05, ap_arcsec=ap_arcsec, remove_resolved=True, sources=sources)
 
 
+NEAR_GAPS = [1e-8, 1e-10, 1e-13, 'ulp']
+
+
+def near_tie_direct(rng, n_groups=None):
+    """well separated chi² values, some of them accompanied by near-ties (relative gaps 1e-8, 1e-10, 1e-13, 1 ulp),
+    in random order"""
+    vals = []
+    base = sorted({float('%.3g' % (10 ** rng.uniform(-1, 4))) for _ in range(rng.randint(2, 8))})
+    for k, v in enumerate(base):
+        vals.append(v)
+        if k < (n_groups or 99) and rng.random() < 0.7:
+            x = v
+            for _ in range(rng.randint(1, 3)):
+                g = rng.choice(NEAR_GAPS)
+                x = float(np.nextafter(x, np.inf)) if g == 'ulp' else x * (1. + g)
+                vals.append(x)
+    if rng.random() < 0.3:
+        vals.append(ef.INF)
+    if rng.random() < 0.3:
+        vals.append(ef.NAN)
+    rng.shuffle(vals)
+    return direct_case(vals, rng.random() < 0.5)
+
+
+def add_near_duplicates(rng, case):
+    """near-duplicate models: a copy with one band changed by parts in 1e8 (or 1e10), placed before or after the
+    original, so that the fitter itself produces chi² values closer than single precision can tell apart"""
+    models = case['models']
+    for _ in range(rng.randint(1, 3)):
+        i = rng.randrange(len(models))
+        m = list(models[i])
+        j = rng.randrange(len(m))
+        m[j] = m[j] * (1. + rng.choice([1., -1.]) * rng.choice([1e-8, 3e-9, 1e-10]))
+        models.insert(i + rng.choice([0, 1]), m)
+    case['near_dup'] = True
+    return case
+
+
 def long_direct(rng):
     n = rng.randint(6, 60)
     pool = [float('%.3g' % (10 ** rng.uniform(-1, 3))) for _ in range(max(2, n // 2))]
@@ -292,6 +351,12 @@ def run_direct(case):
     if any(math.isnan(c) for c in chi2):
         br.add('nan')
     br.add('already_ranked' if ef.is_ranked(chi2) else 'reordered')
+    fin = sorted(c for c in chi2 if math.isfinite(c))
+    for a, b in zip(fin, fin[1:]):
+        if a < b and (b - a) <= 1e-7 * abs(b):
+            br.add('near_tie')
+            if b == float(np.nextafter(a, np.inf)):
+                br.add('near_tie_ulp')
     key = common.canon_hash(case)
     try:
         info = ef.build_info(chi2, pay)
@@ -400,6 +465,9 @@ def run_e2e(case):
             if not ef.is_ranked(got['chi2']):
                 return CaseResult(False, detail='source %d: chi2 not non-decreasing: %r' % (si, [float(c) for c in got['chi2']]),
                                   violates=True, branches=br, key=key)
+            gc = [float(c) for c in got['chi2']]
+            if any(a < b and (b - a) <= 1e-7 * abs(b) for a, b in zip(gc, gc[1:])):
+                br.add('e2e_near_tie')            # the fitter's own chi² values, closer than single precision resolves
             if got['model_id'] != sorted(got['model_id']):
                 br.add('e2e_reordered')
                 if case.get('c04pkg') == 'named_cube':
